@@ -157,6 +157,7 @@ type Ctx struct {
 	loopHavoc   bool
 	lastNonFresh map[string]bool
 	allocSeq    map[string]int
+	touchedLocks bool
 }
 
 // noteWrite records a write for the function frame and, inside loops, whether it may hit a pre-existing object.
